@@ -25,8 +25,8 @@ PROP = "C08"
 
 TIERS = {
     # cfg, TLC timeout, tamper cases executed (None = all), events with all 1024 bits flipped, shards, shard timeout
-    "quick": dict(cfg="MC_NostrCanon_quick.cfg", tlc_timeout=300, tcases=12000, full=160, shards=4, timeout=400),
-    "thorough": dict(cfg="MC_NostrCanon_thorough.cfg", tlc_timeout=1500, tcases=150000, full=2400, shards=4, timeout=1500),
+    "quick": dict(cfg="MC_NostrCanon_quick.cfg", tlc_timeout=300, tcases=12000, full=160, shards=4, timeout=150),
+    "thorough": dict(cfg="MC_NostrCanon_thorough.cfg", tlc_timeout=1500, tcases=None, full=5000, shards=4, timeout=900),
 }
 
 # strings that are NOT valid UTF-8 lie outside the property's domain ("strings over Unicode"): observed, never judged
@@ -151,7 +151,8 @@ def load_cases(raw, tier, rnd):
     n_t = len(traw)
     if conf["tcases"] is not None and n_t > conf["tcases"]:
         traw = rnd.sample(traw, conf["tcases"])
-    tcases = [json.loads(unescape(x)) for x in traw]
+    # tamper cases stay serialised (there are hundreds of thousands); they are parsed on demand
+    tcases = [unescape(x) for x in traw]
     return cases, tcases, n_t
 
 
@@ -168,6 +169,9 @@ def choose_full(cases, n, rnd):
         idx = by[f]
         chosen.update(rnd.sample(idx, min(per, len(idx))))
     return chosen
+
+
+MAX_CRASHES = 1500      # per shard; beyond that the rest of the shard is reported as not executed
 
 
 def run_shard(binary, path, ncases, timeout, respath):
@@ -193,7 +197,7 @@ def run_shard(binary, path, ncases, timeout, respath):
                 bad = skip + len(lines)
                 crashes.append((bad, "hang" if rc == "hang" else "signal %d" % -rc))
                 skip = bad + 1
-                if len(crashes) >= 25:
+                if len(crashes) >= MAX_CRASHES or sum(1 for _, w in crashes if w == "hang") >= 3:
                     break
                 continue
             raise C.ToolError("canondrv failed with exit code %s near case %d of %s: %s" % (
@@ -202,7 +206,7 @@ def run_shard(binary, path, ncases, timeout, respath):
 
 
 def execute(bindir, wd, items, conf):
-    """items: list of case dicts (with 'i'); returns {i: observation}"""
+    """items: list of (i, case dict | serialised tamper case); returns {i: observation}"""
     import concurrent.futures as cf
     binary = os.path.join(bindir, "canondrv")
     k = conf["shards"]
@@ -211,8 +215,11 @@ def execute(bindir, wd, items, conf):
     for j, sh in enumerate(shards):
         p = os.path.join(wd, "cases_%d.ndjson" % j)
         with open(p, "w") as f:
-            for c in sh:
-                f.write(json.dumps(c, separators=(",", ":")) + "\n")
+            for i, c in sh:
+                if isinstance(c, str):
+                    f.write('{"i":%d,"t":"tamper",%s\n' % (i, c[1:]))
+                else:
+                    f.write(json.dumps(dict(c, i=i), separators=(",", ":")) + "\n")
         paths.append(p)
     obs = {}
     crashed = []
@@ -221,7 +228,7 @@ def execute(bindir, wd, items, conf):
                 for j in range(k) if shards[j]]
         for j, fu in enumerate(futs):
             for pos, why in fu.result():
-                crashed.append((shards[j][pos]["i"], why))
+                crashed.append((shards[j][pos][0], why))
     for j in range(k):
         rp = paths[j] + ".res"
         if os.path.exists(rp):
@@ -231,6 +238,11 @@ def execute(bindir, wd, items, conf):
                     obs[r["i"]] = r
     for i, why in crashed:
         obs[i] = dict(i=i, t="crash", crash=why)
+    if not os.environ.get("VERIF_KEEP"):
+        for p in paths:           # hundreds of MB in the thorough tier; the replay files carry what matters
+            for q in (p, p + ".res"):
+                if os.path.exists(q):
+                    os.remove(q)
     return obs
 
 
@@ -240,7 +252,8 @@ def judge_case(c, r):
     out = []
     cls = case_class(c)
     if r.get("t") == "crash":
-        return [("harness_%s" % r["crash"].split()[0], "the harness process died/hung while running this case (%s)" % r["crash"])]
+        return [("crash_%s:%s" % (r["crash"].split()[0], cls),
+                 "the process died/hung inside the code under test while running this case (%s)" % r["crash"])]
     if not r["serde_same"]:
         raise C.ToolError("the specification's canonical text and serde_json disagree (tool error, not a verdict) on %s: "
                           "spec %r serde %r" % (json.dumps({k: c[k] for k in ("ts", "kind", "tags", "content")}),
@@ -262,15 +275,17 @@ def judge_case(c, r):
     for b in r["bad"]:
         name = b["name"].split(":")[0] if not b["name"].startswith("noncanonical") else b["name"]
         if b["outcome"] == "ok":
-            out.append(("accepted_%s" % name, "verify() ACCEPTED the event after mutation %s (binary event %s)" % (b["name"], b["event"])))
+            out.append(("accepted_%s" % name, "verify() ACCEPTED the event after mutation %s (the binary event is in the replay file)" % b["name"]))
         else:
-            out.append(("panic_on_%s" % name, "verify() -> %s after mutation %s (binary event %s)" % (b["outcome"], b["name"], b["event"])))
+            out.append(("panic_on_%s" % name, "verify() -> %s after mutation %s (the binary event is in the replay file)" % (b["outcome"], b["name"])))
     return [("%s:%s" % (w, cls), d) for w, d in out]
 
 
 def judge_tamper(c, r):
     if r.get("t") == "crash":
-        return [("harness_%s:tamper:%s" % (r["crash"].split()[0], c["name"]), "the harness process died/hung (%s)" % r["crash"])]
+        return [("crash_%s:tamper_%s:%s" % (r["crash"].split()[0], c["name"], case_class(dict(c["m"], f="tamper"))),
+                 "the process died/hung inside the code under test (%s) on the tampered event %s" % (
+                     r["crash"], json.dumps({k: c["m"][k] for k in ("pkflip", "ts", "kind", "tags", "content")})))]
     if c["expect"] != "reject":
         raise C.ToolError("TCASE line with expectation %r (the spec's own invariant forbids it)" % c["expect"])
     if r["same"]:
@@ -281,14 +296,19 @@ def judge_tamper(c, r):
         return []
     w = "accepted_tamper" if r["v"] == "ok" else "panic_on_tamper"
     return [("%s_%s:%s" % (w, c["name"], case_class(dict(c["m"], f="tamper"))),
-             "verify() -> %s for the event with original fields %s tampered (%s) into %s, carrying the original id and signature (binary event %s)" % (
+             "verify() -> %s for the event with original fields %s tampered (%s) into %s, carrying the original id and signature" % (
                  r["v"], json.dumps({k: c["o"][k] for k in ("ts", "kind", "tags", "content")}), c["name"],
-                 json.dumps({k: c["m"][k] for k in ("pkflip", "ts", "kind", "tags", "content")}), r.get("event")))]
+                 json.dumps({k: c["m"][k] for k in ("pkflip", "ts", "kind", "tags", "content")})))]
 
 
 def pretty(c):
     return dict(family=c.get("f"), created_at=ts_str(c["ts"]), kind=c["kind"], tags=[[text(s) for s in t] for t in c["tags"]],
                 content=text(c["content"]), canonical_text=text(c["canon"]) if "canon" in c else None)
+
+
+def brief(c):
+    p = pretty(c)
+    return dict(created_at=p["created_at"], kind=p["kind"], tags=p["tags"], content=p["content"])
 
 
 def run(prop, tier, seed, replay=None):
@@ -306,45 +326,57 @@ def run(prop, tier, seed, replay=None):
     full = choose_full(cases, conf["full"], rnd)
     items = []
     for i, c in enumerate(cases):
-        c["i"], c["t"], c["full"] = i, "case", i in full
+        c["t"], c["full"] = "case", i in full
         c["pkhex"] = c["canon"][4:68]
-        items.append(c)
+        items.append((i, c))
     for j, c in enumerate(tcases):
-        c["i"], c["t"] = len(cases) + j, "tamper"
-        items.append(c)
-    probes = [dict(i=len(items) + j, t="probe", content_hex=h, what=w) for j, (h, w) in enumerate(PROBES)]
+        items.append((len(cases) + j, c))
+    probes = [(len(items) + j, dict(t="probe", content_hex=h, what=w)) for j, (h, w) in enumerate(PROBES)]
     items += probes
     t0 = time.time()
     obs = execute(bindir, wd, items, conf)
     C.log("[%s] %d events + %d tamper cases executed in %.1fs" % (prop, len(cases), len(tcases), time.time() - t0))
 
-    missing = [c["i"] for c in items if c["i"] not in obs]
-    if missing:
+    missing = [i for i, _ in items if i not in obs]
+    n_crashed = sum(1 for r in obs.values() if r.get("t") == "crash")
+    if missing and n_crashed == 0:
         raise C.ToolError("%d cases have no observation (first: %d)" % (len(missing), missing[0]))
+    if missing:
+        C.log("[%s] %d cases not executed: the harness died %d times (each death is reported for its case)" % (
+            prop, len(missing), n_crashed))
+        missing_set = set(missing)
+        items = [(i, c) for i, c in items if i not in missing_set]
+        probes = [(i, p) for i, p in probes if i not in missing_set]
 
     n_verify = n_mut = 0
     kept = {}
+    seen_case = set()
     total_viol = 0
-    for c in items:
-        r = obs[c["i"]]
+    for i, c in items:
+        r = obs[i]
         n_verify += r.get("n_verify", 0)
         n_mut += r.get("n_mut", 0)
-        if c["t"] == "case":
-            found = judge_case(c, r)
-        elif c["t"] == "tamper":
+        if isinstance(c, str):
+            if r.get("t") == "tamper" and r["base"] == "ok" and not r["same"] and r["v"].startswith("err:") \
+                    and '"expect":"reject"' in c:
+                continue          # rejected, as the specification expects
+            c = dict(json.loads(c), t="tamper")
             found = judge_tamper(c, r)
+        elif c["t"] == "case":
+            found = judge_case(c, r)
         else:
             found = []
         for what, detail in found:
             total_viol += 1
             key = "%s:%s" % (prop, what)
             kept[key] = kept.get(key, 0) + 1
-            if kept[key] > 2 or len(V.violations) >= 300:
+            if kept[key] > 2 or len(V.violations) >= 300 or (key, i) in seen_case:
                 continue
+            seen_case.add((key, i))
             cc = dict(c)
             if c["t"] == "case":
                 cc["full"] = True
-            V.violation(key, "%s: %s; event %s" % (what, detail, json.dumps(pretty(c) if c["t"] == "case" else c["name"])),
+            V.violation(key, "%s: %s; event %s" % (what, detail, json.dumps(brief(c) if c["t"] == "case" else c["name"])),
                         dict(kind="canon_case", case=cc, failed=what, observed=r))
     # most specific first: an id mismatch explains the rest
     V.violations.sort(key=lambda v: (0 if "id_mismatch" in v["key"] or "valid_event" in v["key"] else 1))
@@ -355,16 +387,16 @@ def run(prop, tier, seed, replay=None):
             distinct.add(tuple(c["canon"]))
     dt = set()
     for c in tcases:
-        dt.add(json.dumps([c["o"], c["m"]], sort_keys=True))
+        dt.add(c[c.index('"o":'):])          # the (original, tampered) pair, without the tamper's name
     fam = {}
     for c in cases:
         fam[c["f"]] = fam.get(c["f"], 0) + 1
     alphabet = sorted({x for c in cases if c["f"] in ("content", "tagstr") for x in all_cps(c)})
     V.coverage = dict(
         states=states, transitions=transitions,
-        traces_validated_against_impl=len(cases) + len(tcases),
+        traces_validated_against_impl=len(cases) + len(tcases) - len(missing) - n_crashed,
         samples=[pretty(cases[i]) for i in sorted(rnd.sample(range(len(cases)), min(4, len(cases))))]
-                + ([dict(tamper=tcases[0]["name"], original=tcases[0]["o"], tampered=tcases[0]["m"])] if tcases else []),
+                + ([json.loads(tcases[0])] if tcases else []),
         evaluations=n_verify, distinct_nontrivial=len(distinct) + len(dt),
         rule="cases = events enumerated by TLC from NostrCanon.tla (strings of length <= 2 over the alphabet below in content "
              "and in a tag, 3 over a sub-alphabet in the thorough tier; tag structures; nested-looking strings; kind / created_at "
@@ -376,9 +408,10 @@ def run(prop, tier, seed, replay=None):
         events=len(cases), events_by_family=fam, tamper_cases_in_spec=n_t, tamper_cases_executed=len(tcases),
         mutations_executed=n_mut, events_with_all_1024_bits_flipped=len(full),
         alphabet_size=len(alphabet), alphabet_ascii_complete=all(x in alphabet for x in range(128)),
-        violations_total=total_viol,
-        out_of_domain_observations=[dict(content_hex=p["content_hex"], what=p["what"], verify=obs[p["i"]]["verify"],
-                                         sign_new=obs[p["i"]]["sign_new"]) for p in probes],
+        harness_deaths=n_crashed, cases_not_executed=len(missing), violations_total=total_viol,
+        violation_keys=dict(sorted(kept.items(), key=lambda kv: -kv[1])[:40]),
+        out_of_domain_observations=[dict(content_hex=p["content_hex"], what=p["what"], verify=obs[i].get("verify", obs[i].get("crash")),
+                                         sign_new=obs[i].get("sign_new", obs[i].get("crash"))) for i, p in probes],
         model=dict(module="NostrCanon.tla", cfg=conf["cfg"]),
         exhaustive=False,
     )
@@ -396,8 +429,7 @@ def run(prop, tier, seed, replay=None):
 def run_replay(path, bindir, wd, V, conf):
     rp = json.load(open(path))["replay"]
     c = rp["case"]
-    c["i"] = 0
-    obs = execute(bindir, wd, [c], dict(conf, shards=1))
+    obs = execute(bindir, wd, [(0, c)], dict(conf, shards=1))
     r = obs[0]
     print("  case: %s" % json.dumps(pretty(c) if c["t"] == "case" else c))
     print("  observed: %s" % json.dumps({k: v for k, v in r.items() if k != "bad"}))
@@ -407,5 +439,6 @@ def run_replay(path, bindir, wd, V, conf):
     for what, detail in found:
         V.violation("%s:%s" % (PROP, what), "replayed: %s: %s" % (what, detail), rp)
     V.coverage = dict(states=1, transitions=1, traces_validated_against_impl=1, samples=[pretty(c) if c["t"] == "case" else c],
-                      evaluations=max(1, r.get("n_verify", 1)), distinct_nontrivial=2, rule="replay of one recorded case")
+                      evaluations=max(1, r.get("n_verify", 1)), distinct_nontrivial=1 + r.get("n_mut", 0),
+                      rule="replay of one recorded case: the case itself plus each mutated event derived from it")
     return V.finish()
